@@ -38,15 +38,19 @@ func init() {
 		Level: "exploration",
 		Rule: "(1) sources: random bytes, token soup over the lexer alphabet, splice/delete/duplicate/bit-flip mutations of the repository's .lisp files and of generated programs, and structured stressors (10^5-10^6 deep brackets and quote chains, recursive macros, runaway tail and non-tail recursion, self-containing maps/vectors passed to printing, equal?, json:dump-*, format-string, elpspath, macro expansion returning a cyclic form, huge #^ indexes), loaded with MaxSteps, default stack/nesting/tail limits, MaxAlloc and a context deadline; " +
 			"(2) every function, operator and macro found in the registry at run time x arities 0..max+2 x argument tuples from a pool of ~60 values of every type (boundary ints, NaN/Inf, invalid UTF-8 and long strings, bytes, symbols/keywords, nested/empty lists and vectors, 0-dim and multi-dimensional arrays, maps incl. JSON-decoded, cyclic containers, natives, error values, builtin/lambda/macro/operator function values, tagged values); (3) the same byte corpus through the three readers and the bare lexer without limits. " +
+			"(4) formals zoo (every seventh case): formals lists enumerated x every definer x every kind of call site x call shapes; " +
+			"(5) re-entrant callbacks (every thirteenth case): every (registered function, arity 2..5, callback position, container position) on which a counting callback is invoked at all, found by calling the whole registry, plus listed call forms (handlers, compose/flip/curry-function wrappers, thread-*, dotimes, keys) x a callback that on its 1st / 2nd / last / every invocation does one thing (append! once, twice, nine at once, append-bytes!, assoc! new/existing key, dissoc!, elpspath ?set! ?del! ?del! twice ?nil!, a nested stable-sort, re-binding the variable, raising, the same call again, load-string) to the container the builtin is working on, to the vector a view was taken from, to a view of it or to the element it was handed x vectors (full, spare capacity), lists (built, quoted), bytes, sorted-maps, a host-built 2-dimensional array, rest / slice views, vectors of vectors, of 2, 3, 8, 25, 50 elements (thorough: drawn sizes up to 60); afterwards the container and the result are read (length, printing, equal?, map, json, nth). " +
 			"Oracle: the call returns, the result is not lisp.IsInternalPanic, no Go panic escapes, the worker survives. distinct_nontrivial counts distinct (source class, outcome condition) and (package:function, arity, outcome condition class) signatures",
 		Assumptions: []string{
 			"total memory is not bounded by elps (documented); inputs are kept <= 2 MiB and MaxAlloc is set to 1M elements so a single builtin call cannot exhaust the machine",
 			"a per-case wall-clock watchdog (120 s, generous: cases take milliseconds) ends the worker; the driver reports the last logged case. Blocking builtins are only reached under a context deadline",
 			"host builtins registered by the harness itself (package verif, which panics on demand) are excluded from the sweep",
+			"re-entrant callbacks: WHAT a builtin answers when its container changes under it is unspecified and not judged (any value or ordinary error is accepted); the runs evaluate forms read once per worker through EvalContext, and a failure is loaded again as one source text in a fresh runtime (reported either way, the summary says whether it showed there too)",
 		},
-		Cases:         func(tier string) int { return pick(tier, 14000, 466666) }, // 12000 / 400000 + every seventh
+		Cases:         func(tier string) int { return pick(tier, 15167, 505555) }, // 12000 / 400000 + every seventh + every thirteenth
 		Run:           c03Run,
 		Init:          c03Init,
+		Driver:        c03Driver,
 		MinDistinct:   func(tier string) int { return pick(tier, 900, 1200) },
 		WorkerTimeout: func(tier string) time.Duration { return time.Duration(pick(tier, 25, 240)) * time.Minute },
 	})
@@ -62,6 +66,7 @@ type c03Fun struct {
 	kind      lisp.LFunType
 	nformals  int
 	variadic  bool
+	formals   []string // the names, in order (the re-entrant family names a callback position after its formal)
 }
 
 func c03Init(w *fw.W) {
@@ -110,6 +115,7 @@ func c03Init(w *fw.W) {
 					continue
 				}
 				f.nformals++
+				f.formals = append(f.formals, fs.Str)
 			}
 			st.funs = append(st.funs, f)
 		}
@@ -161,6 +167,13 @@ var c03CaseIdx int
 
 func c03Run(w *fw.W, idx int) {
 	c03CaseIdx = idx
+	// every thirteenth case belongs to the re-entrant callbacks (c03_reentrant.go); the
+	// others keep the numbering they had before that family was interleaved
+	if idx%13 == 12 {
+		c03Reentrant(w, idx, idx/13)
+		return
+	}
+	idx -= (idx + 1) / 13
 	// every seventh case (7 shares no factor with the usual worker counts, so the family
 	// spreads over all workers) belongs to the formals zoo; the other six keep the
 	// numbering - and so the generators - they had before the zoo was interleaved
@@ -549,7 +562,7 @@ func c03Sweep(w *fw.W, idx int) {
 	// values in two positions (a defect that needs a PAIR of unusual arguments, such as
 	// a long string and a count near the integer limit, is otherwise a lottery).
 	rep := k / (len(st.funs) * (maxAr + 1)) // how often this (function, arity) came up before
-	var bidx []int // boundary subset of the pool
+	var bidx []int                          // boundary subset of the pool
 	perType := map[lisp.LType]int{}
 	for j, p := range pool {
 		switch {
